@@ -121,6 +121,9 @@ func poolScenarioH(cfg scenlib.PoolCfg, subs [][]jobSpec, closeAtEnd bool, preal
 							vsched.Event("sched", jid, scenlib.SchedErr(p.Schedule(job)))
 						case "timeout":
 							vsched.Event("sched", jid, scenlib.SchedErr(p.ScheduleWithTimeout(job, 9*time.Millisecond)))
+						case "timeout0", "timeout1ns", "timeout2ns", "timeout-neg": // degenerate timeouts (a third of them is 0)
+							d := map[string]time.Duration{"timeout0": 0, "timeout1ns": 1, "timeout2ns": 2, "timeout-neg": -time.Millisecond}[js.via]
+							vsched.Event("sched", jid, scenlib.SchedErr(p.ScheduleWithTimeout(job, d)))
 						case "invoke":
 							inv := worker.NewDefaultInvokable[int](p, func(v int) { job() })
 							if jid%2 == 0 { // the same invokable assembled through its setters
@@ -277,6 +280,9 @@ func scenarios(tier string) []*vsched.Scenario {
 			poolScenario(scenlib.PoolCfg{Cap: 1, Buf: 1, Max: 1, StandBy: 1, Batch: 1}, [][]jobSpec{{js("timed", S), js("", "sethandler"), js("panic", "late"), js("plain", S)}}, false, 1, false),
 			poolScenario(scenlib.PoolCfg{Cap: 1, Buf: 1, Max: 1, StandBy: 1, Batch: 1, KeepQueue: true}, scripts[1], true, 1, false),
 			poolScenario(scenlib.PoolCfg{Cap: 1, Buf: 2, Max: 2, StandBy: 0, Batch: 1, KeepQueue: true}, scripts[6], true, 2, true))
+		// ScheduleWithTimeout with degenerate timeouts on a full queue (one worker busy, channel and overflow buffer taken)
+		out = append(out, poolScenario(scenlib.PoolCfg{Cap: 1, Buf: 1, Max: 1, StandBy: 1, Batch: 1},
+			[][]jobSpec{{js("timed", S), js("plain", S), js("plain", S), js("plain", "timeout0"), js("plain", "timeout2ns"), js("plain", "timeout-neg"), js("plain", "timeout1ns")}}, false, 0, false))
 		// a panic handler that schedules a follow-up job on its own pool
 		out = append(out,
 			poolScenarioH(scenlib.PoolCfg{Cap: 2, Buf: 1, Max: 2, StandBy: 2, Batch: 1}, [][]jobSpec{{js("panic", S)}}, false, 0, 0, false, true)) // (bound 0: with two stand-by workers and their timers one deviation already takes minutes)
